@@ -181,7 +181,7 @@ def parse_model(line):
 
 # --------------------------------------------------------------------------------------------- one template set
 
-def variants_for(bodies, stack, rng, limit):
+def variants_for(bodies, stack, rng, limit, base_handler=None):
     """template sets with a `% try` wrapped around an ancestor of the raising node (lexical ancestors of every
     node on the dynamic stack of the raise)"""
     idmap = {}
@@ -206,7 +206,8 @@ def variants_for(bodies, stack, rng, limit):
     out = []
     for ti, p in cands:
         nb = copy.deepcopy(bodies)
-        handler = HANDLER + ([["expr", ["loopindex"], []]] if G.loop_context_at(bodies[ti], p) else [])
+        handler = (base_handler if base_handler is not None else HANDLER) + \
+            ([["expr", ["loopindex"], []]] if G.loop_context_at(bodies[ti], p) else [])
         nb[ti] = G.wrap_try(bodies[ti], p, handler)
         out.append((nb, {"template": ti, "path": list(p)}))
     return out
@@ -239,7 +240,7 @@ def check_case(impl, bodies, k, mode, ref=None):
     return site, detail, r, e
 
 
-def run_set(ctx, bodies, st_o, st_b, st_s, pending, tag):
+def run_set(ctx, bodies, st_o, st_b, st_s, pending, tag, handler=None):
     """all crash points x handlers for one template set; queues the model requests"""
     try:
         impl = Impl(bodies)
@@ -283,7 +284,7 @@ def run_set(ctx, bodies, st_o, st_b, st_s, pending, tag):
             lim = 2 if ctx.quick else 6
             if ctx.quick and k > 10:
                 lim = 1
-            for nb, where in variants_for(bodies, first_ref["stack"], ctx.rng, lim):
+            for nb, where in variants_for(bodies, first_ref["stack"], ctx.rng, lim, handler):
                 try:
                     vimpl = Impl(nb)
                 except Exception as ex:      # noqa
@@ -564,7 +565,7 @@ FIXED_SETS = [
      [[["def", 1, [1], G.FL(), [["text", "["], ["expr", ["caller", 0, []], []], ["text", "]"]]],
        ["def", 2, [], G.FL(), [["call", ["call", 1, [["caller", 0, []]]], [], [["text", "inner"], ["expr", ["boom"], []]]]]],
        ["call", ["call", 2, []], [],
-        [["call", ["call", 1, [["lit", "p"]]], [], [["text", "z"], ["expr", ["boom"], []]]], ["expr", ["probe"], []]]],
+        [["call", ["call", 1, [["lit", "p"]]], [], [["text", "z"], ["expr", ["boom"], []]]], ["text", "w"]]],
        ["expr", ["probe"], []]]]),
 ]
 
@@ -592,7 +593,9 @@ def run(ctx):
                 ctx.branch("stream:" + name)
             ctx.log("oracle %s: %d sets so far, %d cases, %d violations" % (name, n, st_o["cases"], len(ctx.violations)))
         for name, bodies in FIXED_SETS:
-            impl = run_set(ctx, copy.deepcopy(bodies), st_o, st_b, st_s, pending, "fixed:" + name)
+            # no probe in the wrapped handlers here: inside a body() that runs while the outer call collects its
+            # arguments the pending caller is (legitimately) still set, which the stack-free renderers do not show
+            impl = run_set(ctx, copy.deepcopy(bodies), st_o, st_b, st_s, pending, "fixed:" + name, [["text", "!"]])
             ctx.branch("fixed:" + name)
             if impl is not None:
                 sets.append((bodies, impl))
